@@ -85,6 +85,14 @@ class C19(Prop):
         for w in range(1, 11):
             yield {"k": "binrepr", "ints": list(range(0, 2 ** w, max(1, 2 ** w // 64))) + [2 ** w - 1], "width": w}
             yield {"k": "binrepr", "ints": list(range(2 ** w)), "width": None, "w": w}
+        # the same kinds of calls in an interpreter started with -O (assert statements stripped)
+        opt = []
+        for j in range(6):
+            m = rng.choice(self.maps[2])
+            opt.append({"k": "shadow", "rows": ins_to_state(m), "r": j % 3, "circ": ("onsite_rcc", "global_rcc", "brickwall_rcc", "fixed")[j % 4], "seed": sd + 2000 + j, "ns": 3})
+            opt.append({"k": "sample", "rows": ins_to_state(m), "r": j % 3, "L": 6, "seed": sd + 2100 + j})
+            opt.append({"k": "density", "rows": ins_to_state(m), "r": j % 3})
+        yield {"k": "optpass", "scns": opt, "pkg": "py"}
         # classical shadows
         for j in range(30 if thorough else 10):
             for n in (2, 3):
@@ -100,6 +108,9 @@ class C19(Prop):
 
     def execute(self, scn, be):
         k = scn["k"]
+        if k == "optpass":
+            from .. import optrun
+            return optrun.run(self.id, be.name, scn["scns"], self.wd)
         St, C = be.stabilizer, be.circuit
         rec = {"op": k}
         try:
